@@ -226,7 +226,7 @@ var catalogue = []mutation{
 		c.S.Locked = append(c.S.Locked, *channel.NewSubAlloc(channel.ID{4}, zeros(len(c.S.Assets)-1), nil))
 		return true
 	}},
-	{"locked-fill-1024", true, func(c *cand, _ *mctx) bool { return fillLocked(c.S, limSubAllocs) }},     // at the limit: still well-formed
+	{"locked-fill-1024", true, func(c *cand, _ *mctx) bool { return fillLocked(c.S, limSubAllocs) }},   // at the limit: still well-formed
 	{"locked-fill-1025", true, func(c *cand, _ *mctx) bool { return fillLocked(c.S, limSubAllocs+1) }}, // over the limit
 
 	// --- asset list
